@@ -1,5 +1,6 @@
 //! Runner, statistics, evidence, findings, panic capture, coordinator/worker split.
 pub mod choices;
+pub mod fuzzlink;
 pub mod coord;
 pub mod idehost;
 pub mod lsp;
@@ -226,6 +227,9 @@ pub struct Ctx {
     pub inconclusive: Vec<String>,
     sample_cap: usize,
     pub shrink_budget_s: u64,
+    /// Coverage-guided stage: streams come from libFuzzer (see `fuzzlink`).
+    pub fuzz: Option<fuzzlink::FuzzLink>,
+    fuzz_mode: bool,
 }
 
 impl Ctx {
@@ -245,7 +249,15 @@ impl Ctx {
             inconclusive: vec![],
             sample_cap: 2,
             shrink_budget_s: 90,
+            fuzz: None,
+            fuzz_mode: false,
         }
+    }
+
+    /// In the coverage-guided stage only the generated part of a property runs: enumerations,
+    /// corpus sweeps and witnesses are the ordinary workers' business.
+    pub fn fuzzing(&self) -> bool {
+        self.fuzz.is_some() || self.fuzz_mode
     }
 
     /// Does index `i` of an enumerated space belong to this shard?
@@ -370,6 +382,48 @@ impl Ctx {
         F: FnMut(&mut Ctx, &[u8]) -> Result<(), Failure>,
     {
         if self.stopped() {
+            return;
+        }
+        if self.fuzzing() {
+            let Some(link) = self.fuzz.take() else { return };
+            if !(link.label.is_empty() || link.label == label) {
+                self.fuzz = Some(link);
+                return;
+            }
+            self.fuzz_mode = true;
+            let mut n = 0u64;
+            while let Ok(Some(bytes)) = link.rx.recv() {
+                let bytes: Vec<u8> = if bytes.len() > max_len { bytes[..max_len].to_vec() } else { bytes };
+                self.counting = true;
+                n += 1;
+                match judged(self, &mut test, &bytes) {
+                    Ok(()) if self.stopped() => {
+                        // the closure recorded a violation itself (ctx.fail)
+                        let _ = link.tx.send(fuzzlink::Verdict::Stop);
+                        break;
+                    }
+                    Ok(()) => {
+                        let _ = link.tx.send(fuzzlink::Verdict::Continue);
+                    }
+                    Err(f) => {
+                        self.counting = false;
+                        let budget = self.shrink_budget_s;
+                        let mut best = f;
+                        let _ = fuzzlink::shrink_bytes(if budget == 0 { &[] } else { &bytes }, budget, |cand| match judged(self, &mut test, cand) {
+                            Err(f2) => {
+                                best = f2;
+                                true
+                            }
+                            Ok(()) => false,
+                        });
+                        self.counting = true;
+                        self.failures.push(best);
+                        let _ = link.tx.send(fuzzlink::Verdict::Stop);
+                        break;
+                    }
+                }
+            }
+            self.class_n(&format!("coverage-guided inputs (libFuzzer) into {}", label), n);
             return;
         }
         let my_cases = (cases / self.nshards as u64
